@@ -51,10 +51,12 @@ def _type_name(t) -> str:
 
 
 def _is_null(v) -> bool:
+    if not pd.api.types.is_scalar(v):
+        return False  # a list, array, index or frame is a value, not a null
     res = pd.isnull(v)
     if isinstance(res, (bool, np.bool_)):
         return bool(res)
-    return False  # a list, array or frame is a value, not a null
+    return False
 
 
 def is_data_frame(d) -> bool:
